@@ -80,6 +80,10 @@ IsEmptyPath(raw) == raw = <<"">> \/ raw = <<>>
 (*   fl.nosym  : RESOLVE_NO_SYMLINKS                                       *)
 (* Result: Ok(inode) or Err(errno name).  `max` = MAXSYMLINKS (40).        *)
 (***************************************************************************)
+\* directories the caller may not search (no x permission): optional field of the tree record.  may_lookup() is asked at
+\* the top of every step of the walk -- for "." and ".." too -- after the "is it a directory" test of the previous step
+NoX(fs) == IF "nox" \in DOMAIN fs THEN fs.nox ELSE {}
+
 RECURSIVE KWalk(_, _, _, _, _, _, _)
 KWalk(fs, root, cur, rem, n, fl, max) ==
     IF rem = <<>> THEN
@@ -87,6 +91,7 @@ KWalk(fs, root, cur, rem, n, fl, max) ==
     ELSE
     LET c == Head(rem)  rest == Tail(rem)  last == (rest = <<>>) IN
     IF ~IsDir(fs, cur) THEN Err("ENOTDIR")
+    ELSE IF cur \in NoX(fs) THEN Err("EACCES")
     ELSE IF c = "." THEN KWalk(fs, root, cur, rest, n, fl, max)
     ELSE IF c = ".." THEN
         KWalk(fs, root, IF cur = root THEN root ELSE Parent(fs, cur), rest, n, fl, max)
@@ -133,6 +138,7 @@ OpenPhase(fs, r, acc, odir, otrunc) ==
 \* openat(d, name, O_PATH|O_NOFOLLOW): name is one component (may be "." or "..")
 OpenatNoFollow(fs, d, name) ==
     IF ~IsDir(fs, d) THEN Err("ENOTDIR")
+    ELSE IF d \in NoX(fs) THEN Err("EACCES")
     ELSE IF name = "." THEN Ok(d)
     ELSE IF name = ".." THEN Ok(Parent(fs, d))
     ELSE IF ~Linked(fs, d) /\ d # P THEN Err("ENOENT")     \* lookups in a removed directory
